@@ -168,6 +168,15 @@ pub enum Op {
         h: SlotId,
         len: usize,
     },
+    /// C17: tokenizer utility functions of the C API (llg_tokenize_bytes, llg_tokenize_bytes_marker,
+    /// llg_stringify_tokens, llg_decode_tokens) with an output buffer of `len` elements between
+    /// canaries; `which` selects the function, the input is derived from `seed`
+    CTokUtil {
+        which: u8,
+        seed: u64,
+        len: usize,
+        via_clone: bool,
+    },
     /// C20/C17: C constructors and validators fed hostile text; message buffers between canaries
     HostileC {
         what: String,
